@@ -1156,6 +1156,37 @@ func (ex *Exec) evCall(x *SCall, env *Env) Val {
 		q := fmt.Sprintf("(forall ((%s Int)) (! (=> (and (<= %s %s) (< %s %s)) (= (select %s %s) (select %s %s))) :pattern ((select %s %s))))",
 			k, lo.S, k, k, hi.S, curArr.S, k, oldArr.S, k, curArr.S, k)
 		return TV(And(Eq(cur.T, old.T), mkTerm(q, SortBool)), boolT)
+	case "sameobject":
+		// sameobject(p): every field of the struct *p (all of them, as declared by
+		// the type in the current tree) holds what it held at function entry;
+		// embedded arrays keep their whole content
+		v := arg(0)
+		stt, sty, ok := structOf(v.Ty)
+		if !ok || v.Kind != VTerm || v.T.Sort != SortInt {
+			specFail("sameobject: not a pointer to a struct")
+		}
+		n := *env
+		n.cur = env.old
+		var conj []Term
+		for i := 0; i < stt.NumFields(); i++ {
+			f := stt.Field(i)
+			switch fu := f.Type().Underlying().(type) {
+			case *types.Array:
+				rg := ex.fieldRegion(env.st, v.T, sty, f)
+				es := sortOf(fu.Elem())
+				conj = append(conj, Eq(Select(ex.heapIn(env, memName(es), memSort(es)), rg), Select(ex.heapIn(&n, memName(es), memSort(es)), rg)))
+			case *types.Struct:
+				specFail("sameobject: nested struct field %s is not supported", f.Name())
+			default:
+				hn := fieldHeapName(sty, f)
+				fs := sortOf(f.Type())
+				conj = append(conj, Eq(Select(ex.heapIn(env, hn, ArraySort(fs)), v.T), Select(ex.heapIn(&n, hn, ArraySort(fs)), v.T)))
+			}
+		}
+		if len(conj) == 0 {
+			return TV(TrueT, boolT)
+		}
+		return TV(And(conj...), boolT)
 	case "isfunc":
 		// isfunc(f, "pkg.Name"): f is exactly that package-level function
 		v := arg(0)
